@@ -39,12 +39,23 @@ def gen_n(per):
             l = cases.with_irq(l, kind, data, at=0)
             lines.append(cases.set_steps(l, rng.choice([1, 2])))
             meta[cid] = ("acceptance", "kind=%d" % kind)
+        # LD A,I / LD A,R while a maskable request is pending but refused (IFF1 = 0): P/V is still IFF2
+        for op in (0x57, 0x5F):
+            for iff2 in (0, 1):
+                for im in (0, 1, 2):
+                    for data in ([0xFF], [0x10], [0xCD, 0x38, 0x00]):
+                        for ns in (1, 2):
+                            cid = "p%d" % k; k += 1
+                            st = cases.rand_state(rng); st.update(PC=0x200, HALT=0, IFF1=0, IFF2=iff2, IM=im, I=rng.choice([0, 0x80, rng.below(256)]))
+                            mem = [(0x200, 0xED), (0x201, op), (0x202, 0xED), (0x203, op ^ 8)]
+                            lines.append(pipeline.step_line(cid, st, mem=mem, nsteps=ns, sched=[(0, 1, data)]))
+                            meta[cid] = ("pending-refused", "ED %02X IFF2=%d" % (op, iff2))
         return lines, meta
     return gen
 
 def run(tier, seed):
     return cpucheck.run(PROP, tier, seed, gen_n((2, 200)), keep=KEEP, search_lines=gen_n((8, 30)),
                         rule="all dispatch cases x R in {0x7F,0xFF,0x7E,0xFE,0x80,0x00,random} and random I / IFF2; all 256 starting R values through LD A,R, LD A,I, NOP, NEG, LD IX,nn, "
-                             "a DDCB form and HALT; LDIR + HALT programs with halted Steps and an NMI; real code vs extracted generated model")
+                             "a DDCB form and HALT; LDIR + HALT programs with halted Steps and an NMI; LD A,I / LD A,R under a pending refused request (IFF1=0, IFF2 in {0,1}, every mode); real code vs extracted generated model")
 def replay(path):
     return cpucheck.replay(PROP, path, keep=KEEP)
